@@ -23,7 +23,9 @@
 (* integers, booleans; sets of paths are sequences in universe order.       *)
 EXTENDS Naturals, Integers, Sequences, FiniteSets, TLC
 
-CONSTANTS MaxH          \* number of handle slots
+CONSTANTS MaxH,         \* number of handle slots
+          SyncKnob      \* TRUE: sync_probability > 0 -- every write / set_len may be followed by a background data
+                        \* sync of that file ("a later sync point of the file" is then a permitted crash content)
 
 \* ---------------------------------------------------------------------------
 \* path universe: strings for the outside world, name sequences inside
@@ -84,8 +86,12 @@ rvars == <<ino, hnd, mode, rres>>
 Root == 1
 NoIno == 0
 NoEnts == [n \in {} |-> 0]
-NewFile == [kind |-> "file", ents |-> NoEnts, data |-> <<>>, dents |-> NoEnts, ddata |-> <<>>]
-NewDir  == [kind |-> "dir",  ents |-> NoEnts, data |-> <<>>, dents |-> NoEnts, ddata |-> <<>>]
+\* cands: contents the file had immediately after a write / set_len since its last explicit data sync (kept
+\* only under SyncKnob): the contents a background sync may have made durable
+NewFile == [kind |-> "file", ents |-> NoEnts, data |-> <<>>, dents |-> NoEnts, ddata |-> <<>>, cands |-> {}]
+NewDir  == [kind |-> "dir",  ents |-> NoEnts, data |-> <<>>, dents |-> NoEnts, ddata |-> <<>>, cands |-> {}]
+SetData(t, i, d) == [t EXCEPT ![i].data = d, ![i].cands = IF SyncKnob THEN @ \cup {d} ELSE @]
+Permitted(t, i) == {t[i].ddata} \cup t[i].cands
 
 RInit ==
     /\ ino = <<NewDir>>
@@ -178,7 +184,7 @@ R_WriteAt(op) ==
     /\ HOpen(op) /\ UNCHANGED <<hnd, mode>>
     /\ IF ~H(op).wr THEN rres' = Err("BadAccess") /\ UNCHANGED ino
        ELSE /\ rres' = Ok(Len(op.data))
-            /\ ino' = IF op.data = <<>> THEN ino ELSE [ino EXCEPT ![HI(op)].data = WriteBytes(@, op.off, op.data)]
+            /\ ino' = SetData(ino, HI(op), IF op.data = <<>> THEN ino[HI(op)].data ELSE WriteBytes(ino[HI(op)].data, op.off, op.data))
 
 R_ReadAt(op) ==
     /\ HOpen(op) /\ UNCHANGED <<ino, hnd, mode>>
@@ -191,7 +197,7 @@ R_Write(op) ==      \* cursor / append write
     /\ IF ~H(op).wr THEN rres' = Err("BadAccess") /\ UNCHANGED <<ino, hnd>>
        ELSE LET off == IF H(op).app THEN Len(ino[HI(op)].data) ELSE H(op).cur IN
             /\ rres' = Ok(Len(op.data))
-            /\ ino' = IF op.data = <<>> THEN ino ELSE [ino EXCEPT ![HI(op)].data = WriteBytes(@, off, op.data)]
+            /\ ino' = SetData(ino, HI(op), IF op.data = <<>> THEN ino[HI(op)].data ELSE WriteBytes(ino[HI(op)].data, off, op.data))
             /\ hnd' = [hnd EXCEPT ![op.h].cur = off + Len(op.data)]
 
 R_Read(op) ==       \* cursor read
@@ -213,7 +219,7 @@ R_Seek(op) ==       \* whence "set" | "end" | "cur", signed offset
 R_SetLen(op) ==
     /\ HOpen(op) /\ UNCHANGED <<hnd, mode>>
     /\ IF ~H(op).wr THEN rres' = Err("InvalidInput") /\ UNCHANGED ino      \* ftruncate on O_RDONLY: EINVAL
-       ELSE rres' = Ok(0) /\ ino' = [ino EXCEPT ![HI(op)].data = Resize(@, op.n)]
+       ELSE rres' = Ok(0) /\ ino' = SetData(ino, HI(op), Resize(ino[HI(op)].data, op.n))
 
 R_Len(op) ==
     /\ HOpen(op) /\ UNCHANGED <<ino, hnd, mode>>
@@ -223,7 +229,7 @@ R_Len(op) ==
 R_SyncFile(op) ==
     /\ HOpen(op) /\ UNCHANGED <<hnd, mode>>
     /\ rres' = Ok(0)
-    /\ ino' = [ino EXCEPT ![HI(op)].ddata = ino[HI(op)].data]
+    /\ ino' = [ino EXCEPT ![HI(op)].ddata = ino[HI(op)].data, ![HI(op)].cands = {}]
 
 \* sync_dir(p): the entries of p become durable as they are now, and so does p's own entry in its parent
 R_SyncDir(op) ==
@@ -327,13 +333,15 @@ R_WriteFile(op) ==      \* std::fs::write = create + truncate + write_all
     /\ UNCHANGED <<hnd, mode>>
     /\ IF ~ParentOk(s) THEN rres' = Err(ParentErr(s)) /\ UNCHANGED ino
        ELSE IF i # NoIno /\ ino[i].kind = "dir" THEN rres' = Err("IsDir") /\ UNCHANGED ino
-       ELSE IF i # NoIno THEN rres' = Ok(0) /\ ino' = [ino EXCEPT ![i].data = op.data]
+       \* std::fs::write: create + truncate (no background sync there), then one write call unless the data is empty
+       ELSE IF i # NoIno THEN rres' = Ok(0) /\ ino' = IF op.data = <<>> THEN [ino EXCEPT ![i].data = <<>>] ELSE SetData(ino, i, op.data)
        ELSE /\ rres' = Ok(0)
-            /\ ino' = Link(Append(ino, [NewFile EXCEPT !.data = op.data]), Lookup(ParentStr(s)), LastName(s), Len(ino) + 1)
+            /\ LET t1 == Link(Append(ino, NewFile), Lookup(ParentStr(s)), LastName(s), Len(ino) + 1) IN
+               ino' = IF op.data = <<>> THEN t1 ELSE SetData(t1, Len(ino) + 1, op.data)
 
 \* ---------------------------------------------------------------------------
 \* crash
-Crashed == [i \in DOMAIN ino |-> [ino[i] EXCEPT !.ents = ino[i].dents, !.data = ino[i].ddata]]
+Crashed == [i \in DOMAIN ino |-> [ino[i] EXCEPT !.ents = ino[i].dents, !.data = ino[i].ddata, !.cands = {}]]
 AllNames == {"a", "b", "c", "d", "e"}
 Succ(t, i) == IF t[i].kind = "dir" THEN {t[i].ents[n] : n \in DOMAIN t[i].ents} ELSE {}
 RECURSIVE ReachSet(_, _, _)
@@ -355,19 +363,41 @@ ChainOk(t, q, k) ==      \* every proper prefix of q of length >= k is a singly 
     ELSE LET i == WalkT(t, Root, SubSeq(q, 1, k)) IN
          i # NoIno /\ t[i].kind = "dir" /\ i \notin MultiLinked(t) /\ ChainOk(t, q, k + 1)
 AssertedT(t, s) == ChainOk(t, Seg(s), 1) /\ (LookupT(t, s) = NoIno \/ LookupT(t, s) \notin MultiLinked(t))
-Masked(info) == [k |-> "?", l |-> 0, d |-> <<>>, ed |-> FALSE, e |-> <<>>]
-CrashImage(ps) == [k \in 1..Len(ps) |-> IF AssertedT(Crashed, ps[k]) THEN RInfoT(Crashed, ps[k]) ELSE Masked(0)]
+Masked == [k |-> "?", l |-> 0, d |-> <<>>, ed |-> FALSE, e |-> <<>>, alt |-> {}]
+\* the listing of an asserted directory is asserted only for its asserted children; a file may hold any of the
+\* contents the knobs permit: `alt` ("its contents are those at its last data sync", or with background
+\* sync "a later sync point of the file")
+CrashInfo(t, s) ==
+    LET info == RInfoT(t, s)  i == LookupT(t, s) IN
+    [k |-> info.k, l |-> info.l, d |-> info.d, ed |-> info.ed, e |-> SelectSeq(info.e, LAMBDA c : AssertedT(t, c)),
+     alt |-> IF info.k = "file" THEN Permitted(ino, i) ELSE {}]
+CrashImage(ps) == [k \in 1..Len(ps) |-> IF AssertedT(Crashed, ps[k]) THEN CrashInfo(Crashed, ps[k]) ELSE Masked]
 
-R_Crash(op) ==          \* op.ps: the list of paths read back after the crash
-    /\ ino' = Crashed
+\* one entry of an observed image against the reference image
+EntryMatches(ps, o, ref, k) ==
+    \/ ref[k].k = "?"
+    \/ /\ o.k = ref[k].k /\ o.ed = ref[k].ed
+       /\ SelectSeq(o.e, LAMBDA c : \A j \in 1..Len(ps) : ps[j] = c => ref[j].k # "?") = ref[k].e
+       /\ IF ref[k].k = "file" THEN o.d \in ref[k].alt /\ o.l = Len(o.d) ELSE o.d = <<>> /\ o.l = 0
+\* "exactly the durable image": an observed image matches iff it agrees with the reference on every asserted
+\* path (entries of a listing that are themselves not asserted are ignored)
+ImageMatches(ps, obs, ref) ==
+    /\ Len(obs) = Len(ref)
+    /\ \A k \in 1..Len(ref) : EntryMatches(ps, obs[k], ref, k)
+
+\* op.ps: the list of paths read back after the crash, op.obs: the image that was read back.  Where the knobs
+\* permit several contents the reference continues with the permitted one that was observed.
+R_Crash(op) ==
+    LET img == CrashImage(op.ps)
+        adopt(i) == {k \in 1..Len(op.ps) : /\ k <= Len(op.obs) /\ img[k].k = "file" /\ LookupT(Crashed, op.ps[k]) = i
+                                           /\ op.obs[k].k = "file" /\ op.obs[k].d \in img[k].alt}
+    IN
+    /\ ino' = [i \in DOMAIN ino |->
+                  IF adopt(i) = {} THEN Crashed[i]
+                  ELSE LET d == op.obs[CHOOSE k \in adopt(i) : TRUE].d IN [Crashed[i] EXCEPT !.data = d, !.ddata = d]]
     /\ hnd' = [h \in 1..MaxH |-> Null]
     /\ mode' = IF Dangling(Crashed) \/ MultiLinked(Crashed) # {} THEN "unspec" ELSE mode
-    /\ rres' = Ok(CrashImage(op.ps))
-
-\* "exactly the durable image": an observed image matches iff it equals the reference on every asserted path
-ImageMatches(obs, ref) ==
-    /\ Len(obs) = Len(ref)
-    /\ \A k \in 1..Len(ref) : ref[k].k = "?" \/ obs[k] = ref[k]
+    /\ rres' = Ok(img)
 
 \* ---------------------------------------------------------------------------
 R_Do(op) ==
@@ -405,7 +435,9 @@ P_Op(op, res) == mode = "ok" /\ op.k # "crash" /\ R_Do(op) /\ SameRes(rres', res
 \* read-back of every listed path after the operation equals the tree
 P_View(ps, view) == mode = "ok" /\ view = RViewOn(ps) /\ UNCHANGED rvars
 \* C07 CrashImage: the image read back after the crash equals the durable image on every asserted path
-P_Crash(op, image) == mode = "ok" /\ op.k = "crash" /\ R_Do(op) /\ ImageMatches(image, rres'.v)
+P_Crash(op, image) ==
+    /\ mode = "ok" /\ op.k = "crash"
+    /\ R_Do([k |-> "crash", ps |-> op.ps, obs |-> image]) /\ ImageMatches(op.ps, image, rres'.v)
 \* after a crash that left a dangling subtree or a doubly linked inode nothing more is asserted
 P_Unspec == mode = "unspec" /\ UNCHANGED rvars
 P_Reset ==
